@@ -1,38 +1,11 @@
 ----------------------------- MODULE Table_C13 -----------------------------
 (* Rows printed by harness/h_arith.cpp validated against TorusW (C13). *)
-EXTENDS TorusW, Table
+EXTENDS TorusW, Table, Torus32
 VARIABLE i
 Init == i \in 1..NRows
 Next == UNCHANGED i
 Spec == Init /\ [][Next]_i
 R == Rows[i]
-
-IsPow2(M) == \E k \in 1..30 : M = 2^k
-Log2(M) == CHOOSE k \in 1..30 : M = 2^k
-
-(* ---- full-width arithmetic on halves: M * x = Ah * 2^32 + Al * 2^16 + B  (M <= 2^15) ---- *)
-Prod(M, w) == LET P == M * w.l
-                  A == M * w.h + P \div 65536
-              IN  [Ah |-> A \div 65536, Al |-> A % 65536, B |-> P % 65536]
-\* r is an integer of [0,M) nearest to M*x/2^32 (ties either way)
-IsNearest32(r, w, M) ==
-    IF M <= 32768 THEN
-       LET p == Prod(M, w) IN
-         \/ r = p.Ah % M /\ (p.Al < 32768 \/ (p.Al = 32768 /\ p.B = 0))
-         \/ r = (p.Ah + 1) % M /\ p.Al >= 32768
-    ELSE \* power of two 2^m, 16 <= m <= 30: M*x/2^32 = x / 2^s, s = 32 - m in 2..16
-       LET s  == 32 - Log2(M)
-           fl == w.h * 2^(16 - s) + w.l \div 2^s
-           fr == w.l % 2^s
-       IN \/ r = fl % M /\ fr <= 2^(s - 1)
-          \/ r = (fl + 1) % M /\ fr >= 2^(s - 1)
-\* t is the torus encoding of mu/M: 0 <= mu*2^32 - t*M < 2M on the circle
-IsEncoding32(t, mu, M) ==
-    IF M <= 32768 THEN
-       LET p == Prod(M, t) IN
-         \/ mu = p.Ah % M /\ p.Al = 0 /\ p.B = 0
-         \/ mu = (p.Ah + 1) % M /\ p.Al = 65535 /\ p.B > 65536 - 2 * M
-    ELSE LET s == 32 - Log2(M) IN t.h * 2^(16 - s) + t.l \div 2^s = mu /\ t.l % 2^s = 0
 
 \* embedded rows: x = xi * 2^(32-W) with W <= 15, and M a power of two <= 2^15: equality with the as-implemented model
 Embedded(w) == w.l = 0 /\ w.h % 2^(16 - W) = 0
